@@ -116,7 +116,7 @@ func c12SourceFacts() map[string]int {
 	facts := map[string]int{}
 	for _, k := range []string{"shutdown_tick_ms", "recv_drain_tick_ms", "closeidles_idle_s", "shutdown_read_deadline_ms",
 		"closemsg_before_sweep", "accept_error_continues", "count_before_dispatch", "allclosed_only_cleared", "closemsg_range_continues",
-		"decrement_deferred_in_handler"} {
+		"decrement_deferred_in_handler", "drain_wait_only_exit"} {
 		facts[k] = 999
 	}
 	srv := c12ParseFuncs("tars/transport/tarsserver.go")
@@ -157,6 +157,40 @@ func c12SourceFacts() map[string]int {
 					if add, ok := c12IsCall(c.Args[0], "Add"); ok && len(add.Args) == 1 {
 						if v := c12MsLit(add.Args[0]); v >= 0 {
 							facts["shutdown_read_deadline_ms"] = v
+						}
+					}
+				}
+			}
+			return true
+		})
+	}
+	if fd := tcp["recv"]; fd != nil {
+		// the deferred drain wait `for range tk.C { if numInvoke == 0 { break } }`: the loop body is that single `if`,
+		// and it holds the only break / return / goto of the loop
+		ast.Inspect(fd, func(x ast.Node) bool {
+			rs, ok := x.(*ast.RangeStmt)
+			if !ok || !c12Contains(rs.X, func(n ast.Node) bool { s, ok := n.(*ast.SelectorExpr); return ok && s.Sel.Name == "C" }) {
+				return true
+			}
+			facts["drain_wait_only_exit"] = 0
+			exits := 0
+			ast.Inspect(rs.Body, func(y ast.Node) bool {
+				switch v := y.(type) {
+				case *ast.BranchStmt:
+					if v.Tok == token.BREAK || v.Tok == token.GOTO {
+						exits++
+					}
+				case *ast.ReturnStmt:
+					exits++
+				}
+				return true
+			})
+			if len(rs.Body.List) == 1 && exits == 1 {
+				if ifs, ok := rs.Body.List[0].(*ast.IfStmt); ok && ifs.Else == nil && ifs.Init == nil {
+					if b, ok := ifs.Cond.(*ast.BinaryExpr); ok && b.Op == token.EQL &&
+						c12Contains(b.X, func(n ast.Node) bool { s, ok := n.(*ast.SelectorExpr); return ok && s.Sel.Name == "numInvoke" }) {
+						if l, ok := b.Y.(*ast.BasicLit); ok && l.Value == "0" {
+							facts["drain_wait_only_exit"] = 1
 						}
 					}
 				}
@@ -348,7 +382,7 @@ func init() {
 		f := c12SourceFacts()
 		for _, k := range []string{"shutdown_tick_ms", "recv_drain_tick_ms", "closeidles_idle_s", "shutdown_read_deadline_ms",
 			"closemsg_before_sweep", "accept_error_continues", "count_before_dispatch", "allclosed_only_cleared", "closemsg_range_continues",
-			"decrement_deferred_in_handler"} {
+			"decrement_deferred_in_handler", "drain_wait_only_exit"} {
 			fmt.Printf("Definition c_c12_%s := %d.\n", k, f[k])
 		}
 	})
